@@ -69,6 +69,7 @@ type WorldSpec struct {
 	OutErrEvery   int    `json:"stdout_error_every,omitempty"`
 	CloseWakes    bool   `json:"close_wakes_reader"`
 	SockOpenErr   string `json:"sock_open_err,omitempty"`
+	HostLatency   string `json:"host_query_latency,omitempty"`
 	SigintStep    int    `json:"sigint_step,omitempty"`
 	SigintAt      string `json:"sigint_at,omitempty"`
 
@@ -201,6 +202,7 @@ func runCmd(t *testing.T, c simrt.Chooser, w *WorldSpec, trace bool) *CmdResult 
 			}
 			host.Routes = append(host.Routes, rt)
 		}
+		host.CallLatency = parseDur(w.HostLatency)
 		if w.RoutesErr {
 			host.RoutesErr = fmt.Errorf("netlink receive: too many open files")
 		}
